@@ -7,6 +7,7 @@ CONSTANTS
   Chunk = 6
   BodySizes = {2}
   RootSizes = {2}
+  ScrubLen = 4
   MaxCommits = 3
   MaxAppends = 2
   MaxCrashes = 1
